@@ -10,6 +10,8 @@ tables `Cherab.Gen.RepoPaths.tables`).  Protocol (see harness/props/c06.py):
   upd <UpdFn> <root> <input>            -> ok | <Error>
   add <AddFn> <root> <n> {arg} <items>  -> ok | <Error>
   ins <InstallFn> <root> <n> {input}    -> ok | <Error>
+  insfiles <root> <n> {<InstallFn> <m> {input}}            -> ok | <Error>     (install_files)
+  populate <root> <n> {<InstallFn> <m> {input}} <input>    -> ok | <Error>     (repository.populate)
   get <GetFn> <root> <n> {arg}          -> ok <n> {k <n> {hex} v <rate>} | <Error>
   ls                                    -> files of the model file system, sorted
   cat <path>                            -> content of one file: ok <n> {k <n> {hex} v <rate>} | missing
@@ -70,8 +72,27 @@ def pArr : P Arr := do
   let data ← rep n pNat
   return ⟨shape, data⟩
 
+def pErr : P Err := do
+  match ← tok with
+  | "ValueError" => return .valueError
+  | "KeyError" => return .keyError
+  | "AttributeError" => return .attributeError
+  | "RuntimeError" => return .runtimeError
+  | _ => return .typeError
+
+/-- one object of a rate dictionary: outcome of `np.array(x, float64)` (`A …` | `E <Error>`) and of `float(x)`
+(`F <bits>` | `E <Error>`), computed by the harness with the real NumPy / float -/
+def pRaw : P Raw := do
+  let a ← (do match ← tok with
+    | "A" => return .ok (← pArr)
+    | _ => return .error (← pErr) : P (Except Err Arr))
+  let f ← (do match ← tok with
+    | "F" => return .ok ⟨[], [← pNat]⟩
+    | _ => return .error (← pErr) : P (Except Err Arr))
+  return ⟨a, f⟩
+
 def pRate : P Rate := do
-  rep (← pNat) (do let n ← pStr; let a ← pArr; return (n, a))
+  rep (← pNat) (do let n ← pStr; let a ← pRaw; return (n, a))
 
 def pItems : P (List (List Arg × Rate)) := do
   rep (← pNat) (do let a ← pArgs; let r ← pRate; return (a, r))
@@ -158,6 +179,17 @@ def step (fs : FS) (ts : List String) : FS × String :=
     | "ins" => do
       let i ← pInstall; let root ← pRoot; let n ← pNat; let inps ← rep n pInput
       let r := install T i inps root fs
+      return (r.1, fRes r)
+    | "insfiles" => do
+      let root ← pRoot; let n ← pNat
+      let cfg ← rep n (do let i ← pInstall; let m ← pNat; let inps ← rep m pInput; return (i, inps))
+      let r := installFiles T cfg root fs
+      return (r.1, fRes r)
+    | "populate" => do
+      let root ← pRoot; let n ← pNat
+      let cfg ← rep n (do let i ← pInstall; let m ← pNat; let inps ← rep m pInput; return (i, inps))
+      let wl ← pInput
+      let r := populate T cfg wl root fs
       return (r.1, fRes r)
     | "get" => do
       let g ← pGet; let root ← pRoot; let args ← pArgs
